@@ -427,13 +427,22 @@ func c16GenPool(r *common.Rand, n int) ([]common.JEvent, []string) {
 				e.Tags = append(e.Tags, []string{"long", "x"})
 			}
 		}
+		// a repeated single-letter tag whose value nobody else carries, followed by a further tag
+		// (the index key of the repetition is met twice when the event leaves the store)
+		if r.Chance(18) {
+			u := "u" + strconv.Itoa(i)
+			name := common.Pick(r, []string{"p", "t"})
+			e.Tags = append(e.Tags, []string{name, u}, []string{name, u}, []string{"t", common.Pick(r, []string{"x", "y"})})
+		}
 		if e.Kind >= 30000 && e.Kind < 40000 {
-			switch r.Intn(10) {
+			switch r.Intn(12) {
 			case 0: // no d tag at all
 			case 1:
 				e.Tags = append(e.Tags, []string{"d"})
 			case 2:
 				e.Tags = append(e.Tags, []string{"d", common.Pick(r, dvals)}, []string{"d", common.Pick(r, dvals)})
+			case 3: // the first d tag has no value (d = ""), a later one has
+				e.Tags = append(e.Tags, []string{"d"}, []string{"d", common.Pick(r, []string{"a", "b"})})
 			default:
 				e.Tags = append(e.Tags, []string{"d", common.Pick(r, dvals)})
 			}
@@ -509,7 +518,7 @@ func c16GenFilter(r *common.Rand, ids []string, sel int) common.JFilter {
 		}
 		f.Kinds = &ks
 	}
-	if r.Chance(sel) {
+	if r.Chance(sel + 15) {
 		tcs := []common.JTagCond{}
 		names := []string{"t", "p", "d", "e", "a"}
 		for k := 1 + r.Intn(2); k > 0 && len(names) > 0; k-- {
